@@ -228,3 +228,99 @@ Proof.
   - rewrite Hf. rewrite (Hus vs [] [] e us E). cbn [spec_x obj_mems eprint_mems]. rewrite app_nil_r. reflexivity.
   - destruct Hf as [c Hf]. rewrite Hf. reflexivity.
 Qed.
+
+(* ------------------------------------------------------------------ (B) check 304 on the root walk with base extraction *)
+Definition egood (e : jexp) : Prop := jexp_bytes e = true /\ wshape e = true.
+Definition mgood (m : list Z * jexp) : Prop := jbytes_okb (fst m) = true /\ egood (snd m).
+
+Lemma field_valuew_good o f x e : wf x = true -> desc_ok (snd f) = true -> field_valuew o f x = TOk e -> egood e.
+Proof.
+  intros Hw Hd H. unfold field_valuew in H. destruct (o_value_mapping o && f_jsconv (fst f)).
+  - split; [exact (jsconv_bytes o x e Hw H) | exact (jsconv_wshape o x e Hw H)].
+  - split; [exact (json_ofw_bytes o x (snd f) e Hw Hd H) | exact (json_ofw_wshape o x (snd f) e Hw H)].
+Qed.
+
+Lemma obj_good l : Forall mgood l -> egood (EObj l).
+Proof.
+  intros H. split; cbn [jexp_bytes wshape]; apply forallb_forall; intros m Hm; rewrite Forall_forall in H;
+    destruct (H m Hm) as [Hk [Hb Hs]]; [rewrite Hk, Hb; reflexivity | exact Hs].
+Qed.
+
+Lemma unset_good o fs l p us : desc_ok (DStruct fs) = true -> (forall f, In f l -> In f fs) -> unset_walk o l p = inl us -> Forall mgood us.
+Proof.
+  intros Hd Hl H. apply Forall_forall. intros m Hm.
+  pose proof (unset_walk_bytes o fs Hd l p us Hl H) as Hb. rewrite forallb_forall in Hb. specialize (Hb m Hm).
+  pose proof (unset_walk_wshape o l p us H) as Hs. rewrite forallb_forall in Hs. specialize (Hs m Hm).
+  apply andb_true_iff in Hb. destruct Hb as [Hk Hb]. split; [exact Hk | split; [exact Hb | exact Hs]].
+Qed.
+
+Lemma root_walkw_good o fs : desc_ok (DStruct fs) = true -> forall vs acc seen bs e,
+  (forall iv, In iv vs -> wf (snd iv) = true) -> Forall mgood acc ->
+  fst (root_walkw o fs vs acc seen bs) = TOk e -> egood e.
+Proof.
+  intros Hd. induction vs as [|[id x] vs IH]; intros acc seen bs e Hw Hacc H; cbn [root_walkw] in H.
+  - cbn [fst] in H. unfold unset_members in H. destruct (unset_walk o (sort_flds fs) seen) as [us|] eqn:Eu; [|discriminate].
+    inversion H; subst. apply obj_good. apply Forall_app. split; [apply Forall_rev; exact Hacc|].
+    exact (unset_good o fs _ _ us Hd (In_sort_flds fs) Eu).
+  - assert (Hwr : forall iv, In iv vs -> wf (snd iv) = true) by (intros iv Hiv; apply Hw; right; exact Hiv).
+    assert (Hwx : wf x = true) by (apply (Hw (id, x)); left; reflexivity).
+    destruct (find_field fs id) as [f|] eqn:Ef.
+    + pose proof (find_field_in _ _ _ Ef) as Hfin.
+      pose proof Hd as Hd'. cbn [desc_ok] in Hd'. rewrite forallb_forall in Hd'. specialize (Hd' f Hfin). apply andb_true_iff in Hd'. destruct Hd' as [Hk Hdf].
+      destruct (o_thrift_base o && o_base_in_ctx o && f_respbase (fst f)); [exact (IH _ _ _ e Hwr Hacc H)|].
+      destruct (o_convert_exception o && negb (id =? 0)).
+      * destruct (field_valuew o f x); cbn [fst] in H; try discriminate.
+        destruct (negb (forallb (fun m => jexp_finite (snd m)) acc)); [discriminate|].
+        destruct (unset_members o fs (id :: seen)); discriminate.
+      * destruct (field_valuew o f x) as [e1|e1|c1] eqn:Ev; cbn [fst] in H; try discriminate.
+        apply (IH ((f_key (fst f), e1) :: acc) (id :: seen) bs e Hwr); [|exact H].
+        constructor; [|exact Hacc]. split; [exact Hk | exact (field_valuew_good o f x e1 Hwx Hdf Ev)].
+    + destruct (o_disallow_unknown o); [cbn [fst] in H; discriminate|]. exact (IH _ _ _ e Hwr Hacc H).
+Qed.
+
+Lemma t2j_specw_good o d v e : wf v = true -> desc_ok d = true -> fst (t2j_specw o d v) = TOk e -> egood e.
+Proof.
+  intros Hw Hd H.
+  assert (J : forall d', desc_ok d' = true -> json_ofw o d' v = TOk e -> egood e)
+    by (intros d' Hd' H'; split; [exact (json_ofw_bytes o v d' e Hw Hd' H') | exact (json_ofw_wshape o v d' e Hw H')]).
+  unfold t2j_specw in H. destruct d as [t|b|fs|dk dv|s de]; try (exact (J _ Hd H)).
+  destruct v as [ | | | | | | |vs| | | ]; try (exact (J _ Hd H)).
+  apply (root_walkw_good o fs Hd vs [] [] None e); [exact (wf_struct_fields vs Hw) | constructor | exact H].
+Qed.
+
+(* SOUNDNESS at the root: a text accepted against the marker walk of do (thrift base extraction included, ConvertException
+   off) is the token sequence of the ROOT spec tree with every double spelled by a lexeme denoting its bits *)
+Theorem check304_root_sound o v d n r m r' out : o_convert_exception o = false ->
+  wf v = true -> conforms v d = true -> desc_wf d = true -> desc_ok d = true -> base_is_struct d ->
+  (depth v <= n)%nat -> (depth v <= max_skip_depth)%nat ->
+  t2j_walk_root fd_mark o n d (encode v ++ r) = Some (m, r') ->
+  text_agrees (S (length m)) m out = true ->
+  exists e, fst (t2j_specw o d v) = TOk e /\ jexp_finite e = true /\ agrees (jtoks e) out.
+Proof.
+  intros Hce Hw Hc Hdw Hdo Hbs Hd Hs Hwalk Hag.
+  rewrite (walk_root_refines fd_mark o v d n r Hce Hw Hc Hdw Hbs Hd Hs) in Hwalk.
+  unfold walk_spec, spec_text_p in Hwalk.
+  destruct (fst (t2j_specw o d v)) as [e|e|c] eqn:E; try discriminate.
+  destruct (jexp_finite e) eqn:Ef; [|discriminate]. inversion Hwalk; subst m r'.
+  exists e. split; [reflexivity|]. split; [exact Ef|].
+  destruct (t2j_specw_good o d v e Hw Hdo E) as [Hby Hsh].
+  rewrite (print_toks fd_mark e) in Hag.
+  exact (text_agrees_sound (jtoks e) _ out (jtoks_ok e Hby Hsh) (Nat.lt_succ_diag_r _) Hag).
+Qed.
+
+(* COMPLETENESS at the root: no false alarm *)
+Theorem check304_root_complete o v d n r m r' out e : o_convert_exception o = false ->
+  wf v = true -> conforms v d = true -> desc_wf d = true -> desc_ok d = true -> base_is_struct d ->
+  (depth v <= n)%nat -> (depth v <= max_skip_depth)%nat ->
+  t2j_walk_root fd_mark o n d (encode v ++ r) = Some (m, r') ->
+  fst (t2j_specw o d v) = TOk e -> agrees (jtoks e) out ->
+  text_agrees (S (length m)) m out = true.
+Proof.
+  intros Hce Hw Hc Hdw Hdo Hbs Hd Hs Hwalk E Hag.
+  rewrite (walk_root_refines fd_mark o v d n r Hce Hw Hc Hdw Hbs Hd Hs) in Hwalk.
+  unfold walk_spec, spec_text_p in Hwalk. rewrite E in Hwalk.
+  destruct (jexp_finite e); [|discriminate]. inversion Hwalk; subst m r'.
+  rewrite (print_toks fd_mark e).
+  destruct (t2j_specw_good o d v e Hw Hdo E) as [Hby Hsh].
+  apply (text_agrees_complete (jtoks e) out Hag); [exact (jtoks_ok e Hby Hsh)|apply jtoks_sep_ok|apply Nat.lt_succ_diag_r].
+Qed.
